@@ -12,6 +12,8 @@ TRUST = ("Trusted base: the AST instrumenter and simrt scheduler (syntactic rewr
          "Sampling, not enumeration: a clean batch is evidence, not proof. Standard library, codec and generated code are atomic to the scheduler.")
 
 CLAIMED = {
+    "C11": ("5/C11", "Seeded search over the points at which a scripted server (which answers every request it reads) closes connections - after any response, when idle, after a reconnect notification, by crash+restart - x gaps between close and next call (0ms-2.5s, straddling the sender's 1s poll) x interleavings of callers, sender and receiver goroutines of the real client; "
+            "oracles: a call issued after the client observed the close (its Read returned EOF) succeeds in far less than its time-out, no request is written to a connection the client closed at an earlier instant, no new dial while the latest connection is healthy."),
     "C12": ("5/C12", "Seeded search over the instant of Shutdown relative to in-flight, queued and still-arriving requests x handler durations x pool sizes (0 and N, checked separately) x queue capacities x context time-outs x interleavings of accept loop, receive loops, handlers, pool dispatcher and the shutdown poller, with the real TarsServer/tcpHandler/gpool and scripted raw clients; "
             "oracles from the simnet record: every request frame the server completely read is executed and (two-way) answered before the server closes that connection, connected clients get the reconnect notification (id 0) before the close, Shutdown returns only when all connections are closed or its context expired, and within 5 simulated seconds of whichever comes first."),
     "C07": ("5/C07", "Seeded search over partitions of the byte stream (write chunking down to single bytes, cuts inside the 4-byte prefix, coalescing, pauses, read fragmentation, back-pressure) x frame-length sequences (4, 5, around 4096, max-1, max, illegal prefixes) x maximum-length settings x schedules, against the real server receive loop (with and without worker pool) and the real client receive loop with recording protocol layers; "
